@@ -60,8 +60,8 @@ pub fn c01_term_matchers() {
     assert!(matches!(a1.constant(), Some(c) if same(*c, a)), "[t].constant() must be t");
     let a2 = [a, b];
     assert!(a2.matches(&x) == (same(a, x) || same(b, x)));
-    assert!(a2.constant().is_none(), "a two-element array is not a constant (even if both elements are equal, exposing one is allowed only if matches is exact)");
     contract(&a1, x);
+    contract(&a2, x); // a two-element array may only expose a constant if matching is exactly "eq that constant"
     // &[T]
     let s1: &[VT] = &a1[..];
     let s2: &[VT] = &a2[..];
@@ -100,8 +100,8 @@ pub fn c01_graph_name_matchers() {
     assert!(a1.matches(xr) == same_gn(g, x));
     assert!(a2.matches(xr) == (same_gn(g, x) || same_gn(h, x)));
     assert!(matches!(a1.constant(), Some(c) if same_gn(c.copied(), g)));
-    assert!(a2.constant().is_none());
     contract_gn(&a1, x);
+    contract_gn(&a2, x);
     let s2: &[Option<VT>] = &a2[..];
     assert!(s2.matches(xr) == (same_gn(g, x) || same_gn(h, x)));
     contract_gn(&s2, x);
